@@ -167,6 +167,8 @@ pub fn evaluate_step(salt : &str, outs : &[OutSpec], inputs : &[(String, bool, O
                 }
                 // "!FAILSIG ..." : the command is killed by a signal (no exit code at all)
                 else if c.starts_with(b"!FAILSIG") { return StepResult { code : -9, writes : vec![], skipped : vec![] }; }
+                // "!FAILEXEC ..." : the system cannot start the command (execute_command returns an error for the line)
+                else if c.starts_with(b"!FAILEXEC") { return StepResult { code : -8, writes : vec![], skipped : vec![] }; }
                 else if c.starts_with(b"!FAIL") { return StepResult { code : 1, writes : vec![], skipped : vec![] }; }
             },
         }
@@ -232,6 +234,9 @@ fn parse_outspec(token : &str) -> Option<OutSpec>
     Some(OutSpec { path : path.to_string(), raw : raw, mask : mask, exec : exec })
 }
 
+/* marks a script line the system could not start; VSys turns it into an error entry of execute_command */
+pub const CANNOT_EXECUTE : &str = "!cannot-execute";
+
 fn output(code : i32, err : &str) -> CommandLineOutput
 {
     // a negative code stands for "terminated by a signal": the process reports no exit code
@@ -271,6 +276,10 @@ pub fn run_script_line(sys : &VSys, line : &str, step_index : usize) -> CommandL
     }
 
     let result = evaluate_step(salt, &outs, &inputs, step_index);
+    if result.code == -8
+    {
+        return output(-8, CANNOT_EXECUTE);
+    }
     if result.code != 0
     {
         return output(result.code, "failed");
